@@ -38,6 +38,10 @@ impl<'t, 'a> IoGen<'t, 'a> {
                 let v = self.v();
                 bin(BinOp::Plus, bin(BinOp::Plus, strlit("<"), var(&v)), strlit(">"))
             }
+            3 if self.t.chance(1, 4) => {
+                // whole numbers beyond 2^53: their text is the shortest decimal that denotes them, not every digit
+                num(*self.t.choose(&[18014398509481992.0, 144115188075855872.0, 4611686018427387904.0, 9223372036854775808.0, 121932631112635269.0, 1e19, 36028797018963968.0, 1e21]))
+            }
             3 => num(self.t.pick(1000) as f64 / 8.0),
             4 => {
                 let s = gen_string(self.t);
